@@ -16,7 +16,7 @@
 From Coq Require Import NArith List Bool Lia.
 From KdV Require Import Fmt.Codec Fmt.CodecProofs Fmt.Rle Fmt.RleProofs
      Fmt.PfnModel Fmt.BitmapSpec Fmt.ImageSpec Fmt.DiskdumpModel Fmt.DiskdumpSpec Fmt.DiskdumpProofs
-     Fmt.S390Model Fmt.S390Spec Fmt.S390Proofs Fmt.LkcdModel Fmt.LkcdSpec Fmt.LkcdProofs Fmt.ReadProofs
+     Fmt.S390Model Fmt.S390Spec Fmt.S390Proofs Fmt.LkcdModel Fmt.LkcdSpec Fmt.LkcdProofs Fmt.LkcdIndexModel Fmt.LkcdIndexProofs Fmt.ReadProofs
      Fmt.ElfModel Fmt.ElfSpec Fmt.ElfProofs Fmt.ElfRoundtrip Fmt.ElfOpenProofs
      Fmt.SadumpModel Fmt.SadumpSpec Fmt.SadumpProofs Fmt.SadumpOpenProofs.
 Import ListNotations.
@@ -305,7 +305,8 @@ Print Assumptions C01_sadump_disk_set_extents.
     variants and byte orders, every page size, RLE (any well-formed RLE
     stream) / gzip / raw records in *any* stream order, and any history of
     earlier requests ([inv] is the only thing a state has to satisfy, and
-    every operation preserves it). *)
+    every operation preserves it).  The [C01_lkcd_index_*] theorems further
+    down replace the association by the blocks of lkcd.c. *)
 Theorem C01_lkcd_open_partial : forall gunzip l stream img,
   lk_wf l stream -> Forall2 (rec_stores gunzip (ll_compression l) (ll_page_size l)) stream img ->
   exists st, lk_open (read_files [encode_lkcd l stream]) 1 = Ok st /\
@@ -328,6 +329,90 @@ Theorem C01_lkcd_max_pfn_partial : forall gunzip l stream img,
     LkcdProofs.inv l stream (snd (lk_scan_max_pfn (read_files [encode_lkcd l stream]) fuel st)).
 Proof. exact lkcd_max_pfn. Qed.
 Print Assumptions C01_lkcd_max_pfn_partial.
+
+(** ** the PFN index at the level of its blocks (Fmt/LkcdIndexModel.v)
+
+    [struct pfn_block] lists per level-2 slot, [lookup_pfn_block] with its
+    tolerance (as repaired by fix 35), [idx_fits_block] for the block carried
+    from one record to the next, gap entries, [alloc_pfn_block]'s sorted
+    insertion, duplicate detection, the 32-bit limit (fix 90).
+
+    One record of the page stream, for the block list [c] of its slot
+    ([chain_ok]: sorted, no block reaches its successor): whichever block the
+    code picks - looked up with tolerance, or the carried one - "Duplicate
+    PFN" is reported iff the list already has the level-3 index, and
+    otherwise the list afterwards has exactly one entry more: this index, at
+    this offset. *)
+Theorem C01_lkcd_index_record : forall c carried idx off,
+  chain_ok c -> idx < PFN_IDX3_SIZE -> Forall (fun b => b_filepos b < off) c ->
+  match chain_record c carried idx off with
+  | RSplit => exists b, In b c /\ PFN_IDX_LIMIT <= off - b_filepos b
+  | RDup => cfind c idx <> None
+  | RDone c' pos =>
+      cfind c idx = None /\ chain_ok c' /\
+      (forall j, cfind c' j = if j =? idx then Some off else cfind c j) /\
+      (pos < length c')%nat /\
+      Forall (fun b => b_filepos b <= off) c'
+  end.
+Proof. exact chain_record_sound. Qed.
+Print Assumptions C01_lkcd_index_record.
+
+(** ... where [cfind] is what [get_page_desc] reads off the list
+    ([lookup_pfn_block(pfn, 0)], [idx_is_gap], offset computation) *)
+Theorem C01_lkcd_index_lookup : forall c idx,
+  chain_ok c -> chain_find c idx = cfind c idx.
+Proof. exact chain_find_spec. Qed.
+Print Assumptions C01_lkcd_index_lookup.
+
+(** The scan on blocks simulates the scan on the association ([rel]: same
+    scalars, and the blocks answer every PFN as the association does): same
+    status, same descriptor offset, related states - for any reader of file
+    bytes, not only encoder output.  (The bound keeps descriptor offsets
+    within 32 bits of their block: [split_pfn_block] is C04's.) *)
+Theorem C01_lkcd_index_simulates : forall rd gunzip fuel b a pfn,
+  rel b a -> fuel <> O ->
+  lk_last (snd (lk_read_page rd gunzip fuel a pfn)) < PFN_IDX_LIMIT ->
+  fst (kb_read_page rd gunzip fuel b pfn) = fst (lk_read_page rd gunzip fuel a pfn) /\
+  rel (snd (kb_read_page rd gunzip fuel b pfn)) (snd (lk_read_page rd gunzip fuel a pfn)).
+Proof. exact read_page_sim. Qed.
+Print Assumptions C01_lkcd_index_simulates.
+
+(** After any history of requests ([binv]: reachable from [open] by reads and
+    max_pfn queries, see [C01_lkcd_index_history_partial]) some prefix of the
+    page stream has been scanned, and a page frame is found in the blocks iff
+    it occurs in that prefix, at the offset of its descriptor. *)
+Theorem C01_lkcd_index_sound : forall l stream,
+  lk_wf l stream -> forall b, binv l stream b ->
+  exists n, (n <= length stream)%nat /\
+    kb_last b = off l stream n /\
+    forall pfn,
+      tbl_find (kb_tbl b) pfn =
+      match find_rec (firstn n stream) pfn 0 with
+      | Some (i, _) => Some (off l stream i)
+      | None => None
+      end.
+Proof. exact index_sound. Qed.
+Print Assumptions C01_lkcd_index_sound.
+
+(** [_partial]: dumps below 4 GiB (no block splitting).  Opening establishes
+    [binv]; every history of page reads and max_pfn queries, in any order,
+    answers exactly as the image demands - pages found in the blocks, pages
+    the scan reaches, and pages that are not there. *)
+Theorem C01_lkcd_index_open_partial : forall gunzip l stream img,
+  lk_wf l stream -> Forall2 (rec_stores gunzip (ll_compression l) (ll_page_size l)) stream img ->
+  exists b, kb_open (read_files [encode_lkcd l stream]) 1 = Ok b /\ binv l stream b /\
+            kb_be b = ll_be l /\ kb_page_size b = ll_page_size l.
+Proof. intros gunzip l stream img Hwf Hst. exact (index_open gunzip l stream img Hwf Hst). Qed.
+Print Assumptions C01_lkcd_index_open_partial.
+
+Theorem C01_lkcd_index_history_partial : forall gunzip l stream img,
+  lk_wf l stream -> Forall2 (rec_stores gunzip (ll_compression l) (ll_page_size l)) stream img ->
+  len (encode_lkcd l stream) < 2^32 ->
+  forall fuel reqs b, binv l stream b -> (length stream + 1 < fuel)%nat ->
+    fst (kb_run (read_files [encode_lkcd l stream]) gunzip fuel b reqs) = map (spec_answer img) reqs /\
+    binv l stream (snd (kb_run (read_files [encode_lkcd l stream]) gunzip fuel b reqs)).
+Proof. intros gunzip l stream img Hwf Hst Hs fuel. exact (index_any_history gunzip l stream img Hwf Hst Hs fuel). Qed.
+Print Assumptions C01_lkcd_index_history_partial.
 
 (** * arbitrary address ranges *)
 
@@ -502,6 +587,7 @@ Proof.
     + cbn. now left.
     + vm_compute. reflexivity.
     + cbn. repeat constructor; cbn; intuition discriminate.
+    + repeat constructor.
     + repeat constructor.
     + vm_compute. reflexivity.
     + reflexivity.
